@@ -1154,3 +1154,11 @@ def r11_7(ctx):
                       site=ctx.site(b, bb))
     else:
         ctx.ok("every Ok path of remove_txtpp removes exactly one dotted component (%d path states)" % len(res), site=ctx.site(b, res[0][0]))
+
+
+@rule("C01", "R01.8", floor=4)
+def r01_8(ctx):
+    """the output formatter joins the lines it is given with exactly one separator between consecutive lines (= C12 R12.3: pieces pushed,
+    separator placement independent of the accumulated text)"""
+    import rules_text
+    rules_text.r12_3(ctx)
